@@ -46,10 +46,17 @@ func VerifC16Retries() {
 	orig := map[byte]uint64{}
 	retryAt := map[byte]int64{}
 	fails := map[byte]int{}
+	nobj := vnd.Param("NOBJ", 3)
+	var menu []int
+	for o := 0; o < 4; o++ {
+		if vnd.Param("OPS", 15)&(1<<o) != 0 {
+			menu = append(menu, o)
+		}
+	}
 	for i := 0; i < N; i++ {
-		switch vnd.IntRange("op", 0, 3) {
+		switch menu[vnd.IntRange("op", 0, len(menu)-1)] {
 		case 0:
-			o := objs[vnd.IntRange("obj", 0, 2)]
+			o := objs[vnd.IntRange("obj", 0, nobj-1)]
 			origRev := uint64(vnd.IntRange("origrev", 1, 3))
 			rq.Add(o, uint64(10+i), origRev, false, errScripted)
 			orig[o.id] = origRev
@@ -80,7 +87,7 @@ func VerifC16Retries() {
 				vnd.Assert(len(retryAt) == 0, "C16.top-empty-with-queued-items")
 			}
 		case 2:
-			o := objs[vnd.IntRange("obj", 0, 2)]
+			o := objs[vnd.IntRange("obj", 0, nobj-1)]
 			rq.Clear(o)
 			delete(orig, o.id)
 			delete(retryAt, o.id)
